@@ -26,6 +26,7 @@
 import PygProofs.Lemmas.TableAbsHeap
 import PygProofs.Lemmas.TableCall
 import PygProofs.Lemmas.TableMaskPlain
+import PygProofs.Lemmas.TableRagged
 
 namespace Pyg.Props.C01
 open Pyg Table Abs
@@ -1673,5 +1674,156 @@ example : (abs tbl).getMaskPlain [true, false, true] = .ok ⟨["a", "b"], [[.int
     (abs tbl).getMaskPlain [true, false] = .error .value := ⟨rfl, rfl, rfl, rfl⟩
 /-- a one-row table under a single flag is covered by `abs_getMask_plain` (second disjunct) -/
 example : (Table.getMask [("a", [.int 1])] [true]).map abs = Recs.getMaskPlain ⟨["a"], [[.int 1]]⟩ [true] := by rfl
+
+/-! ### review round 2 (2): constructor from rows + header, ragged rows
+
+`new_rows` / `spec_new_rows` cover rows exactly as long as the header.  `_data_columns_as_dict` reads
+`dict(zipper(columns, zipper(*data)))`: the inner `zipper` transposes the rows (rows of length 1 are
+repeated to the common length, two lengths other than 1 are a `ValueError`), the outer one pairs the
+transposed columns with the header (a single transposed column is repeated under every name).  The header
+`cs` is a list of DISTINCT names (a repeated name in `columns=` is outside this closed form). -/
+
+/-- **rows + header, ragged rows** (`dictable([[1,2],[3],[4,5]], columns = ['a','b'])`), header of
+`c = len(cs)` distinct names:
+  * (success) if every row has length `c` or 1, the table has the header as columns and exactly the given
+    rows with each length-1 row repeated across the header (`bcast c`), one record per row
+    (for `c = 1` this says: all rows of length 1 are taken as they are);
+  * (failure, `c ≠ 1`) the constructor raises `ValueError` if and only if some row has a length that is
+    neither `c` nor 1.  Together: for `c ≠ 1` the result is determined for EVERY list of rows.
+For a header of ONE name the outer `zipper` repeats the name instead: see `new_rows_ragged_header1`. -/
+theorem new_rows_ragged (cs : List String) (rs : List (List Cell)) (hcs : cs.Nodup) (hk : cs ≠ []) :
+    ((∀ r ∈ rs, r.length = cs.length ∨ r.length = 1) →
+      construct (.rows rs) (some cs) [] = some (.ok (ofRows cs (rs.map (bcast cs.length)))) ∧
+      (ofRows cs (rs.map (bcast cs.length))).Rect rs.length ∧
+      (ofRows cs (rs.map (bcast cs.length))).cols = cs ∧
+      (ofRows cs (rs.map (bcast cs.length))).rows = rs.map (bcast cs.length)) ∧
+    (cs.length ≠ 1 →
+      (construct (.rows rs) (some cs) [] = some (.error .value) ↔
+        ∃ r ∈ rs, r.length ≠ cs.length ∧ r.length ≠ 1)) := by
+  have hgood : (∀ r ∈ rs, r.length = cs.length ∨ r.length = 1) →
+      construct (.rows rs) (some cs) [] = some (.ok (ofRows cs (rs.map (bcast cs.length)))) := by
+    intro hall
+    by_cases hne : rs = []
+    · subst hne
+      exact (new_rows cs [] hcs hk (by intro r hr; cases hr)).1
+    · exact construct_of_dataCols_ofRows cs _ hcs hk (dataCols_rows_ragged cs rs hcs hne hall)
+  constructor
+  · intro hall
+    have hl : ∀ r ∈ rs.map (bcast cs.length), r.length = cs.length := by
+      intro r hr
+      obtain ⟨r', hr', rfl⟩ := List.mem_map.1 hr
+      exact bcast_length (hall r' hr')
+    refine ⟨hgood hall, ?_, ofRows_cols cs _, ofRows_rows cs _ hk hl⟩
+    have := ofRows_rect cs (rs.map (bcast cs.length))
+    simpa using this
+  · intro hc
+    constructor
+    · intro herr
+      apply Classical.byContradiction
+      intro hno
+      have hall : ∀ r ∈ rs, r.length = cs.length ∨ r.length = 1 := by
+        intro r hr
+        apply Classical.byContradiction
+        intro h
+        exact hno ⟨r, hr, fun h1 => h (Or.inl h1), fun h1 => h (Or.inr h1)⟩
+      rw [hgood hall] at herr
+      cases herr
+    · intro hbad
+      exact construct_of_dataCols_error (dataCols_rows_bad cs rs hc hbad)
+
+/-- the same on the reference machine: the records are the rows, the length-1 ones repeated -/
+theorem spec_new_rows_ragged (cs : List String) (rs : List (List Cell)) (hcs : cs.Nodup) (hk : cs ≠ []) :
+    ((∀ r ∈ rs, r.length = cs.length ∨ r.length = 1) →
+      Recs.construct (.rows rs) (some cs) [] = some (.ok ⟨cs, rs.map (bcast cs.length)⟩)) ∧
+    (cs.length ≠ 1 →
+      (Recs.construct (.rows rs) (some cs) [] = some (.error .value) ↔
+        ∃ r ∈ rs, r.length ≠ cs.length ∧ r.length ≠ 1)) := by
+  obtain ⟨h1, h2⟩ := new_rows_ragged cs rs hcs hk
+  constructor
+  · intro hall
+    obtain ⟨e1, _, e3, e4⟩ := h1 hall
+    rw [← abs_construct, e1]
+    simp [Except.map, abs, e3, e4]
+  · intro hc
+    rw [← h2 hc, ← abs_construct]
+    cases construct (.rows rs) (some cs) [] with
+    | none => simp
+    | some r => cases r <;> simp [Except.map]
+
+/-- hypotheses of `new_rows_ragged` on a concrete ragged input: the middle row is repeated -/
+example : (["a", "b"] : List String).Nodup ∧ (["a", "b"] : List String) ≠ [] ∧
+    ∀ r ∈ ([[.int 1, .int 2], [.int 3], [.int 4, .int 5]] : List (List Cell)), r.length = 2 ∨ r.length = 1 := by
+  decide
+example : construct (.rows [[.int 1, .int 2], [.int 3], [.int 4, .int 5]]) (some ["a", "b"]) [] =
+    some (.ok [("a", [.int 1, .int 3, .int 4]), ("b", [.int 2, .int 3, .int 5])]) := by rfl
+example : Recs.construct (.rows [[.int 1, .int 2], [.int 3], [.int 4, .int 5]]) (some ["a", "b"]) [] =
+    some (.ok ⟨["a", "b"], [[.int 1, .int 2], [.int 3, .int 3], [.int 4, .int 5]]⟩) := by rfl
+/-- all rows of length 1 under a longer header -/
+example : construct (.rows [[.int 1], [.int 3]]) (some ["a", "b", "c"]) [] =
+    some (.ok [("a", [.int 1, .int 3]), ("b", [.int 1, .int 3]), ("c", [.int 1, .int 3])]) := by rfl
+/-- a row of a third length: `ValueError` (the outer zipper; the inner one for two misfits) -/
+example : construct (.rows [[.int 1, .int 2, .int 3], [.int 3]]) (some ["a", "b"]) [] = some (.error .value) ∧
+    construct (.rows [[.int 1, .int 2], [.int 3, .int 4, .int 5]]) (some ["a", "b"]) [] = some (.error .value) ∧
+    construct (.rows [[], [.int 3]]) (some ["a", "b"]) [] = some (.error .value) := ⟨rfl, rfl, rfl⟩
+
+/-- **rows under a header of ONE name** (`dictable([[1,2,3],[3],[7,8,9]], columns = ['a'])`), the case
+`new_rows_ragged` leaves open.  The outer `zipper` repeats the single name for every transposed column and
+`dict` keeps the last pair, so there is no error from the header:
+  * `ValueError` if and only if two rows have different lengths other than 1 (the inner `zipper`);
+  * otherwise, with `n` the common length (`lens`): ONE column holding, per row, its LAST cell (the only
+    cell of a length-1 row) — or no record at all when `n = 0` (only rows of length 0 / 1, at least one
+    empty, or no rows). This is NOT what a list-of-rows reading suggests (cells 1..n-1 of every row are
+    dropped without an error); it is what the modelled code computes (`dict(zipper(['a'], cols))`). -/
+theorem new_rows_ragged_header1 (k : String) (rs : List (List Cell)) :
+    (construct (.rows rs) (some [k]) [] = some (.error .value) ↔
+      ∃ a ∈ rs, ∃ b ∈ rs, a.length ≠ 1 ∧ b.length ≠ 1 ∧ a.length ≠ b.length) ∧
+    (∀ n, lens (rs.map (·.length)) = .ok n →
+      construct (.rows rs) (some [k]) [] =
+        some (.ok [(k, if n = 0 then [] else rs.map fun r => (bcast n r).getD (n - 1) .none)])) := by
+  have hok : ∀ n, lens (rs.map (·.length)) = .ok n →
+      construct (.rows rs) (some [k]) [] =
+        some (.ok [(k, if n = 0 then [] else rs.map fun r => (bcast n r).getD (n - 1) .none)]) := by
+    intro n hl
+    by_cases hne : rs = []
+    · subst hne
+      have : n = 0 := by simpa [lens] using hl.symm
+      subst this
+      exact (new_rows [k] [] (by simp) (by simp) (by intro r hr; cases hr)).1
+    · have hdc := dataCols_rows_header1 k rs hne n hl
+      by_cases h0 : n = 0
+      · subst h0
+        simp only [if_true] at hdc ⊢
+        simp only [construct, hdc]
+        rfl
+      · simp only [if_neg h0] at hdc ⊢
+        exact construct_of_dataCols_single k _ hdc
+  refine ⟨?_, hok⟩
+  constructor
+  · intro herr
+    cases hl : lens (rs.map (·.length)) with
+    | ok n => rw [hok n hl] at herr; cases herr
+    | error e =>
+      have := lens_error_value hl
+      subst this
+      obtain ⟨a, ha, b, hb, h1, h2, h3⟩ := (lens_error_iff _).1 hl
+      obtain ⟨a', ha', rfl⟩ := List.mem_map.1 ha
+      obtain ⟨b', hb', rfl⟩ := List.mem_map.1 hb
+      exact ⟨a', ha', b', hb', h1, h2, h3⟩
+  · rintro ⟨a, ha, b, hb, h1, h2, h3⟩
+    have hl : lens (rs.map (·.length)) = .error .value :=
+      (lens_error_iff _).2 ⟨_, List.mem_map.2 ⟨a, ha, rfl⟩, _, List.mem_map.2 ⟨b, hb, rfl⟩, h1, h2, h3⟩
+    obtain ⟨r0, rest, rfl⟩ := List.exists_cons_of_ne_nil (List.ne_nil_of_mem ha)
+    apply construct_of_dataCols_error
+    have hz : zipper Cell.none (r0 :: rest) = .error .value := by
+      unfold zipper
+      rw [hl]
+    simp only [dataCols, hz]
+
+example : lens (([[.int 1, .int 2, .int 3], [.int 3], [.int 7, .int 8, .int 9]] : List (List Cell)).map (·.length)) = .ok 3 := by
+  rfl
+/-- three-cell rows under a one-name header: the last cell of each row -/
+example : construct (.rows [[.int 1, .int 2, .int 3], [.int 3], [.int 7, .int 8, .int 9]]) (some ["a"]) [] =
+    some (.ok [("a", [.int 3, .int 3, .int 9])]) := by rfl
+example : construct (.rows [[.int 1, .int 2, .int 3], [.int 3, .int 4]]) (some ["a"]) [] = some (.error .value) := by rfl
 
 end Pyg.Props.C01
